@@ -262,13 +262,14 @@ class C17(Prop):
         cases = [{"op": "types"}]
         fmt = [a for a in self.assets if a[2] != "other"]
         other = [a for a in self.assets if a[2] == "other"]
+        groups = mg.group_assets(fmt)
         # every formatted asset pristine once (both process_memory values alternate through the rng)
         for i, a in enumerate(fmt):
             cases.append(self.gen_case(rng.fork("pristine%d" % i), a, True))
         i = 0
         while len(cases) < n:
             r = rng.fork("m%d" % i)
-            a = r.choice(fmt) if not r.chance(1, 12) else r.choice(other)
+            a = mg.pick_asset(r, groups) if not r.chance(1, 12) else r.choice(other)
             cases.append(self.gen_case(r, a, False))
             i += 1
         return cases
